@@ -105,7 +105,7 @@ where
     /*@*/ open spec fn observes_finish() -> bool { true }
     /*@*/ open spec fn replace_is_atomic() -> bool { false }
     /*@*/ open spec fn accepts_replace(&self) -> bool { true }
-    /*@*/ #[verifier::prophetic] open spec fn fobs(&self) -> Obs<Self::Error> { self.inner().fobs() }
+    /*@*/ #[verifier::prophetic] open spec fn fobs(&self) -> Seq<Obs<Self::Error>> { self.inner().fobs() }
     /*@*/ /// configuration: the creator's ghost assignments, the two sequences and the inner hook's configuration
     /*@*/ closed spec fn config(&self) -> Self {
     /*@*/     Compact { d: self.d.config(), ops: arbitrary(), old: self.old, new: self.new, hist: Ghost(Seq::empty()), rst0: self.rst0, it0: Ghost(Seq::empty()), ist0: self.ist0 }
